@@ -85,12 +85,13 @@ end Red
 
 /-- rebuild the spine above `p` with `GreenNode::new` (length and hash recomputed); `none` when the
     path does not exist.  The code works bottom-up through parent links; top-down recursion over the
-    path builds the same value. -/
+    path builds the same value.  Every rebuilt spine node is a fresh allocation (ghost ids
+    `id + depth below`). -/
 def replaceG (H : HashFn) (id : Nat) : Green → Path → Green → Option Green
   | _, [], new => some new
   | g, i :: p, new =>
     match g.children[i]? with
-    | some c => (replaceG H id c p new).map (fun c' => Green.mkNew H id g.kind (g.children.set i c'))
+    | some c => (replaceG H id c p new).map (fun c' => Green.mkNew H (id + p.length) g.kind (g.children.set i c'))
     | none => none
 
 /-- `SyntaxNode::replace_with` / `SyntaxToken::replace_with`: kind assertion first (`none` = panic) -/
